@@ -81,6 +81,102 @@ pub fn check(st: &mut Stats, c: &H) {
     }
 }
 
+/// Display of the value returned by `<type>::format(picture)` under a caller-chosen format spec (alignment, width,
+/// precision, zero / sign flags): whatever the flags, the call returns normally.
+pub struct Spec<'a> {
+    pub pic: &'a str,
+    pub w: usize,
+    pub p: usize,
+}
+impl<'a> Case for Spec<'a> {
+    fn to_json(&self) -> Value {
+        json!({"kind": "display-spec", "picture": self.pic, "width": self.w, "precision": self.p, "picture_len": self.pic.len()})
+    }
+}
+pub fn check_spec(st: &mut Stats, c: &Spec) {
+    crate::props::c05::pin_clock();
+    let (d, t, ts, o, ym, dt) = probes();
+    let (w, p) = (c.w, c.p);
+    let mut s = String::new();
+    macro_rules! all_specs {
+        ($op:expr, $v:expr) => {{
+            st.op($op);
+            if let Ok(x) = $v.format(c.pic) {
+                s.clear();
+                let _ = write!(s, "{}", x);
+                let plain = s.clone();
+                let _ = write!(s, "{:w$}", x, w = w);
+                let _ = write!(s, "{:.p$}", x, p = p);
+                let _ = write!(s, "{:w$.p$}", x, w = w, p = p);
+                let _ = write!(s, "{:<w$}", x, w = w);
+                let _ = write!(s, "{:>w$.p$}", x, w = w, p = p);
+                let _ = write!(s, "{:^w$}", x, w = w);
+                let _ = write!(s, "{:*^w$.p$}", x, w = w, p = p);
+                let _ = write!(s, "{:0w$}", x, w = w);
+                let _ = write!(s, "{:+}", x);
+                let _ = write!(s, "{:#}", x);
+                // an unflagged rendering afterwards is still the plain text (no state left behind by the flagged ones)
+                s.clear();
+                let _ = write!(s, "{}", x);
+                if s != plain {
+                    st.fail("C03/display/plain-rendering-changes-after-flagged-renderings", format!("picture {:?}", c.pic));
+                }
+            }
+        }};
+    }
+    all_specs!(Op::D_format, d);
+    all_specs!(Op::T_format, t);
+    all_specs!(Op::TS_format, ts);
+    all_specs!(Op::O_format, o);
+    all_specs!(Op::YM_format, ym);
+    all_specs!(Op::DT_format, dt);
+}
+
+/// An `AsRef<str>` argument whose text is not the same on every call (nothing obliges it to be): `first` on the
+/// first `switch_at` calls, `later` afterwards.
+pub struct Shifting<'a> {
+    pub calls: std::cell::Cell<u32>,
+    pub switch_at: u32,
+    pub first: &'a str,
+    pub later: &'a str,
+}
+impl<'a> AsRef<str> for Shifting<'a> {
+    fn as_ref(&self) -> &str {
+        let n = self.calls.get();
+        self.calls.set(n + 1);
+        if n < self.switch_at {
+            self.first
+        } else {
+            self.later
+        }
+    }
+}
+pub struct Shift<'a> {
+    pub pic: &'a str,
+    pub first: &'a str,
+    pub later: &'a str,
+    pub switch_at: u32,
+}
+impl<'a> Case for Shift<'a> {
+    fn to_json(&self) -> Value {
+        json!({"kind": "shifting-text", "picture": self.pic, "first": self.first, "later": self.later, "switch_at": self.switch_at})
+    }
+}
+pub fn check_shift(st: &mut Stats, c: &Shift) {
+    crate::props::c05::pin_clock();
+    let mk = || Shifting { calls: std::cell::Cell::new(0), switch_at: c.switch_at, first: c.first, later: c.later };
+    st.opn(Op::F_parse, 7);
+    let _ = Date::parse(mk(), c.pic).map(|v| st.obs(Op::D_parse, &v));
+    let _ = Time::parse(mk(), c.pic).map(|v| st.obs(Op::T_parse, &v));
+    let _ = Timestamp::parse(mk(), c.pic).map(|v| st.obs(Op::TS_parse, &v));
+    let _ = OracleDate::parse(mk(), c.pic).map(|v| st.obs(Op::O_parse, &v));
+    let _ = IntervalYM::parse(mk(), c.pic).map(|v| st.obs(Op::YM_parse, &v));
+    let _ = IntervalDT::parse(mk(), c.pic).map(|v| st.obs(Op::DT_parse, &v));
+    if let Ok(f) = Formatter::try_new(c.pic) {
+        let _ = f.parse::<_, Timestamp>(mk()).map(|v| st.obs(Op::TS_parse, &v));
+    }
+}
+
 pub const INPUT_ALPHABET: &[u8] = b"0129+-:./,; TAPMapmJFSuny";
 pub const FIXED_PICTURES: &[&str] = &["YYYY-MM-DD", "YYYYMMDD", "DD/MM/YYYY", "YYYY DDD", "Y", "YY", "YYY", "MM", "MON", "MONTH", "DD", "DDD", "D", "DAY", "DY", "HH", "HH12", "HH24", "MI", "SS", "FF", "FF1", "FF3", "FF6", "FF9",
     "AM", "P.M.", "W", "WW", "T", "HH24:MI:SS", "HH:MI:SS AM", "HH24:MI:SS.FF", "YYYY-MM-DD HH24:MI:SS.FF", "YYYY-MM-DDTHH24:MI:SS", "DD HH24:MI:SS.FF6", "YYYY-MM", "MM-YYYY", "DY, DD MON YYYY", "A.M. HH12",
@@ -133,6 +229,55 @@ pub fn run(ctx: &Ctx, st: &mut Stats) {
         });
         if ctx.shard.1 <= 1 {
             st.mark_exhaustive(&name, &format!("all strings of length {} over the {}-symbol input alphabet x {} pictures x 6 target types", len, b, FIXED_PICTURES.len()));
+        }
+    }
+    // 2b. Display under caller-chosen format specs (alignment / width / precision / zero / sign flags)
+    st.stratum("display of formatted values under width / precision / alignment / fill / zero / sign flags", true);
+    {
+        let mut pics: Vec<String> = FIXED_PICTURES.iter().map(|s| s.to_string()).collect();
+        for n in [1usize, 8, 36, 300, 317, 318, 319, 325, 326, 330, 700, 5000, 70_000] {
+            if san && n > 400 {
+                continue;
+            }
+            pics.push(format!("YYYY{}MM", " ".repeat(n)));
+            pics.push(format!("HH24{}MI", " ".repeat(n)));
+            pics.push(format!("DD{}", " ".repeat(n)));
+        }
+        pics.push("DD-".repeat(18));
+        pics.push("MONTH ".repeat(18));
+        pics.push("DAY/MONTH/".repeat(9));
+        let dims: &[usize] = if san { &[0, 8, 400] } else { &[0, 1, 8, 40, 324, 325, 326, 327, 400, 1000, 65_535] };
+        let mut k = 0u64;
+        for pic in &pics {
+            for &w in dims {
+                for &p in dims {
+                    k += 1;
+                    if !ctx.mine(k) || (san && k % 5 != 0) {
+                        continue;
+                    }
+                    st.eval(&Spec { pic, w, p }, check_spec);
+                }
+            }
+        }
+    }
+    // 2c. text arguments that are not the same on every `as_ref` call
+    st.stratum("AsRef<str> arguments whose text changes between calls", true);
+    {
+        let firsts = [("YYYY-MM-DD", "2021/03/04"), ("YYYY-MM-DD", "2021-03-04"), ("YYYY-MM-DD HH24:MI", "2021-03-04 10;11"), ("HH24:MI:SS", "10:11,12"), ("DD HH24:MI", "+5 10;11"), ("YYYY-MM", "+0005/11"),
+            ("YYYY/MM/DD", "2021-03-04"), ("MONTH DD", "marchx 4"), ("DY DD MON YYYY", "mon 4 mar 2021"), ("YYYY-MM-DD", "2021-13-04"), ("HH:MI AM", "13:00 pm"), ("YYYY-MM-DD", "20\u{e9}1-03-04"), ("FF9", "1234567890123")];
+        let laters = ["", "x", "20", "\u{20ac}\u{20ac}\u{20ac}\u{20ac}", "2021-03-04", "2021/03/04 and a much longer tail \u{e9}\u{e9}\u{e9} than the first text had", "\u{1F600}"];
+        let mut k = 0u64;
+        for (pic, first) in firsts {
+            for later in laters {
+                for switch_at in [1u32, 2, 3, 5] {
+                    k += 1;
+                    if !ctx.mine(k) {
+                        continue;
+                    }
+                    st.eval(&Shift { pic, first, later, switch_at }, check_shift);
+                    st.eval(&Shift { pic, first: later, later: first, switch_at }, check_shift);
+                }
+            }
         }
     }
     // 3a. long / odd pictures
@@ -262,6 +407,16 @@ pub fn run(ctx: &Ctx, st: &mut Stats) {
 }
 
 pub fn replay(v: &Value, st: &mut Stats) -> bool {
+    if jstr(v, "kind") == "display-spec" {
+        let pic = jstr(v, "picture");
+        st.eval(&Spec { pic: &pic, w: ji64(v, "width") as usize, p: ji64(v, "precision") as usize }, check_spec);
+        return true;
+    }
+    if jstr(v, "kind") == "shifting-text" {
+        let (pic, first, later) = (jstr(v, "picture"), jstr(v, "first"), jstr(v, "later"));
+        st.eval(&Shift { pic: &pic, first: &first, later: &later, switch_at: ji64(v, "switch_at") as u32 }, check_shift);
+        return true;
+    }
     if jstr(v, "kind") != "hostile" {
         return false;
     }
